@@ -21,11 +21,11 @@ RULE = ("seeded runs; scenarios: S0 plant a prefix D[:k] of a real index documen
         "runs, S4 two or three interleaved writers (option / tool, also the tool run for several "
         "images of one ScanSAR product at once) (+readers) at write-chunk granularity under the "
         "seeded scheduler, S4b ALL interleavings of those writers at protocol-step granularity "
-        "(mkdir / open / close / rename / unlink; depth-first, capped at 32 quick / 400 thorough "
+        "(mkdir / open / close / rename / unlink; depth-first, capped at 32 quick / 160 thorough "
         "schedules per run), S5 a creating call (option / tool) that fails with ENOSPC at byte k / "
         "at its n-th disk operation WHILE a default open is under way: all interleavings of the "
         "reader's probes and opens with the writer's steps (latest deviations first, capped at "
-        "40 / 300); after the faults: default open == uncached reference, create_cache=True "
+        "24 / 120); after the faults: default open == uncached reference, create_cache=True "
         "succeeds, next default open == reference and reads no image records. Each planted prefix "
         "/ fault is one evaluation; distinct key = (scenario, location/writer, k-class, "
         "level, schedule digest for S3/S4)" % (2 * SHARDS))
@@ -110,7 +110,7 @@ def generate(rng, tier, index):
         plan["at"] = rng.choice([{"abs": 0}, {"abs": 1}, {"frac": rng.random()}, {"fromend": 1},
                                  {"event": rng.randrange(1, 6)}])
         plan["preexisting"] = rng.choice(["none", "complete"])
-        plan["cap"] = 24 if tier == "quick" else 300
+        plan["cap"] = 24 if tier == "quick" else 120
         return plan
     if scenario == "S3":
         plan["nth"] = rng.randrange(len(wp["images"]))
@@ -134,7 +134,7 @@ def generate(rng, tier, index):
         # instead of one seeded schedule at write-chunk granularity: ALL interleavings of the
         # writers at protocol-step granularity (open / close / rename / unlink / mkdir ...)
         plan["s4_mode"] = "boundaries"
-        plan["cap"] = 32 if tier == "quick" else 400
+        plan["cap"] = 32 if tier == "quick" else 160
     plan["cli_image"] = rng.randrange(len(wp["images"]))
     plan["cli_images"] = [(plan["cli_image"] + i) % len(wp["images"])
                           for i in range(len(plan["writers"]))]
@@ -276,10 +276,21 @@ class Ctx:
         return True
 
 
+class CreationFailed(Exception):
+    pass
+
+
 def _produce_docs(c):
     """a successful creation in the pristine world -> ({image: bytes}, hashdir)"""
-    c.w.open(create_cache=True, use_cache=False)
+    try:
+        c.w.open(create_cache=True, use_cache=False)
+    except SimAbort:
+        raise
+    except Exception as e:  # noqa: BLE001
+        raise CreationFailed(type(e).__name__ + ": " + exc_text(e)) from e
     made = c.w.user_index_files()
+    if not made:
+        raise CreationFailed("create_cache=True wrote no index file below the user cache directory")
     docs = {fn[:-len(".index")]: data for (d, fn), data in made.items()}
     dirs = sorted({d for (d, fn) in made})
     hashdir = dirs[0].split("/", 1)[1] if dirs else None
@@ -493,7 +504,7 @@ def run_s3(c, ref):
     s.spawn("W", writer)
     s.spawn("D", driver)
     try:
-        s.run(wall_timeout=120)
+        s.run(wall_timeout=800)
     finally:
         SIM.write_plan = None
     c.evaluations += 1
@@ -552,7 +563,7 @@ def run_s4_boundaries(c, ref):
             nm = "W%d" % i
             names.append(nm)
             s.spawn(nm, lambda kind=kind, img=cli_images[i]: _writer(c, kind, img))
-        s.run(wall_timeout=240)
+        s.run(wall_timeout=800)
         dec = s.decisions
         for i in range(len(prefix), len(dec)):
             runnable, chosen = dec[i]
@@ -621,7 +632,7 @@ def run_s5(c, ref):
         s.spawn("R", reader)            # first: the default schedule lets the reader finish first
         s.spawn("W", lambda: _writer(c, writer, plan.get("cli_image")))
         try:
-            s.run(wall_timeout=240)
+            s.run(wall_timeout=800)
         finally:
             fired = bool(SIM.write_plan.get("fired"))
             SIM.write_plan = None
@@ -674,7 +685,7 @@ def run_s4(c, ref):
         s.spawn(nm, reader)
     mark = SIM.mark()
     try:
-        s.run(wall_timeout=240)
+        s.run(wall_timeout=800)
     finally:
         SIM.write_chunk = 1 << 30
     c.evaluations += 1
@@ -738,8 +749,8 @@ def execute(plan):
             upd = None
         except SimKill:
             raise
-        except Exception as e:  # noqa: BLE001 - producing the documents itself failed
-            c.bad("cache-creation-raised", f"{scen}:{type(e).__name__}", error=exc_text(e))
+        except CreationFailed as e:     # an unfaulted create_cache=True open in the pristine world
+            c.bad("cache-creation-raised", f"{scen}:{str(e).split(':')[0]}", error=str(e)[:300])
             upd = None
         extra["evaluations"] = max(c.evaluations, 1)
         if upd and c.violations and plan.get("schedule") is None:
